@@ -339,10 +339,10 @@ def obligations(tier):
     thorough = tier == "thorough"
     obs = []
     I = "int"
-    cases = [("T1", "file_array"), ("T5", "file_array"), ("T5", "dict"), ("T8", "file_array"), ("T13", "file_array"), ("T7", "file_array")]
+    cases = [("T1", "file_array"), ("T5", "file_array"), ("T5", "dict"), ("T8", "file_array")]
     if thorough:
-        cases += [("T4", "file_array"), ("T4", "dict"), ("T12", "file_array"), ("T6", "file_array"), ("T16", "file_array"), ("T1", "dict")]
-    chunk = 6
+        cases += [("T13", "file_array"), ("T7", "file_array"), ("T4", "file_array"), ("T4", "dict"), ("T12", "file_array"), ("T6", "file_array"), ("T16", "file_array"), ("T1", "dict")]
+    chunk = 8
     for tid, st in cases:
         t = T[tid]
         nmax, _ = count_events(tid, st, (2, 2, 2))
@@ -352,7 +352,7 @@ def obligations(tier):
                 Ob(
                     f"resume_{tid}_{st}_{lo}",
                     [("crash_at", I), ("torn", I), ("second_crash", I)] + MAP_PARAMS,
-                    [f"{lo} <= crash_at <= {hi}", "0 <= torn <= 2", "second_crash == 0"] + tmpl.size_pre(t, 2),
+                    [f"{lo} <= crash_at <= {hi}", "0 <= torn <= 2", "second_crash == 0"] + (tmpl.size_pre(t, 2) if (thorough or t.axes == 1) else ["1 <= n0 <= 2 and n1 == 2 and n2 == 1"]),
                     f"H.resume({tid!r}, {st!r}, crash_at, torn, second_crash, {MAP_ARGS})",
                     timeout=600,
                     flags=("tokpickle",),
